@@ -15,51 +15,8 @@ func init() { register("C05", runC05) }
 
 // autoAck answers every request the way a conforming broker does (granting the requested QoS).
 func autoAck(s *session, pkt []byte) {
-	switch pkt[0] & 0xF0 {
-	case 0x30:
-		qos := (pkt[0] >> 1) & 3
-		if qos == 0 {
-			return
-		}
-		// skip the remaining length (1-4 bytes)
-		i := 1
-		for pkt[i]&0x80 != 0 {
-			i++
-		}
-		i++
-		tl := int(pkt[i])<<8 | int(pkt[i+1])
-		id := pkt[i+2+tl : i+4+tl]
-		if qos == 1 {
-			s.conn.send([]byte{0x40, 2, id[0], id[1]})
-		} else {
-			s.conn.send([]byte{0x50, 2, id[0], id[1]})
-		}
-	case 0x60:
-		s.conn.send([]byte{0x70, 2, pkt[2], pkt[3]})
-	case 0x80:
-		i := 1
-		for pkt[i]&0x80 != 0 {
-			i++
-		}
-		i++
-		id := pkt[i : i+2]
-		body := pkt[i+2:]
-		var codes []byte
-		for len(body) > 0 {
-			l := int(body[0])<<8 | int(body[1])
-			codes = append(codes, body[2+l])
-			body = body[3+l:]
-		}
-		s.conn.send(encFrame(0x90, append([]byte{id[0], id[1]}, codes...)))
-	case 0xA0:
-		i := 1
-		for pkt[i]&0x80 != 0 {
-			i++
-		}
-		i++
-		s.conn.send([]byte{0xB0, 2, pkt[i], pkt[i+1]})
-	case 0xC0:
-		s.conn.send([]byte{0xD0, 0})
+	if ack := c05AckBytes(pkt); ack != nil {
+		s.conn.send(ack)
 	}
 }
 
@@ -70,10 +27,12 @@ func c05RandStr(r *rand.Rand) []byte {
 	case x < 12:
 		return []byte(c05Strings[r.Intn(len(c05Strings))])
 	case x < 15:
+		// long strings: the alphabet from a random letter on, cyclically (printed compactly by c05Z)
 		n := []int{126, 127, 128, 129, 255, 256, 300}[r.Intn(7)]
 		b := make([]byte, n)
+		k := r.Intn(26)
 		for i := range b {
-			b[i] = byte('a' + r.Intn(26))
+			b[i] = byte('a' + (k+i)%26)
 		}
 		return b
 	case x < 17:
@@ -124,10 +83,10 @@ func (c c05Conn) coq() string {
 	will := "None"
 	if c.Will != nil {
 		will = fmt.Sprintf("(Some {| w_topic := %s; w_payload := %s; w_qos := %d; w_retain := %s |})",
-			cBytes(c.Will.Topic), cBytes(c.Will.Payload), c.Will.QoS, cBool(c.Will.Retain))
+			c05Z(c.Will.Topic), c05Z(c.Will.Payload), c.Will.QoS, cBool(c.Will.Retain))
 	}
 	return fmt.Sprintf("{| c_level := %d; c_clean := %s; c_keepalive := %d; c_client_id := %s; c_user := %s; c_pass := %s; c_will := %s |}",
-		c.Level, cBool(c.Clean), c.KeepAlive, cBytes(c.ClientID), cBytes(c.User), cBytes(c.Pass), will)
+		c.Level, cBool(c.Clean), c.KeepAlive, c05Z(c.ClientID), c05Z(c.User), c05Z(c.Pass), will)
 }
 
 // first packet written by Connect with the given options
@@ -207,7 +166,7 @@ func runC05(cfg *runCfg) error {
 		if err != nil {
 			return fmt.Errorf("connect failed: %v", err)
 		}
-		connCases = append(connCases, cTuple(c.coq(), cBytes(obs)))
+		connCases = append(connCases, cTuple(c.coq(), c05Z(obs)))
 		dist["connect"]++
 		if c.Will != nil {
 			dist["connect_with_will"]++
@@ -227,13 +186,21 @@ func runC05(cfg *runCfg) error {
 
 	// ---------- pub ----------
 	var pubCases []string
-	for i := 0; i < 180*scale; i++ {
+	// every MaxPayloadLen boundary (len = max-1, max, max+1, max+2) first, then random messages
+	type pubBound struct{ max, n int }
+	var bounds []pubBound
+	for _, mx := range []int{1, 120, 128} {
+		for d := -1; d <= 2; d++ {
+			bounds = append(bounds, pubBound{mx, mx + d})
+		}
+	}
+	pubTimeouts := 0
+	for i := 0; i < len(bounds)+180*scale; i++ {
 		max := []int{0, 0, 120, 1, 128}[r.Intn(5)]
 		s, err := newSession(false, autoAck)
 		if err != nil {
 			return err
 		}
-		s.cli.MaxPayloadLen = max
 		qos := byte(r.Intn(3))
 		if r.Intn(12) == 0 {
 			qos = byte(3 + r.Intn(253))
@@ -242,9 +209,23 @@ func runC05(cfg *runCfg) error {
 		if r.Intn(3) == 0 {
 			msg.ID = uint16([]int{1, 255, 256, 65535, r.Intn(65536)}[r.Intn(5)])
 		}
+		if i < len(bounds) {
+			max, msg.QoS, qos = bounds[i].max, mqtt.QoS(i%3), byte(i%3)
+			msg.Payload = c05Fill(bounds[i].n, i)
+		}
+		s.cli.MaxPayloadLen = max
 		reqID := msg.ID
-		ctx, cancel := ctxTimeout(5 * time.Second)
+		// a publish that is never acknowledged (possible only if the library mis-encodes an identifier) is
+		// a violation already; after three of them the remaining cases do not wait as long
+		d := 5 * time.Second
+		if pubTimeouts >= 3 {
+			d = 300 * time.Millisecond
+		}
+		ctx, cancel := ctxTimeout(d)
 		perr := s.cli.Publish(ctx, msg)
+		if ctx.Err() != nil {
+			pubTimeouts++
+		}
 		cancel()
 		evs := s.snapshot()
 		var w [][]byte
@@ -266,9 +247,9 @@ func runC05(cfg *runCfg) error {
 		}
 		var ws []string
 		for _, p := range w {
-			ws = append(ws, cBytes(p))
+			ws = append(ws, c05Z(p))
 		}
-		pubCases = append(pubCases, cTuple(fmt.Sprint(max), cMsg([]byte(msg.Topic), wireID, qos, msg.Retain, false, msg.Payload),
+		pubCases = append(pubCases, cTuple(fmt.Sprint(max), c05Msg([]byte(msg.Topic), wireID, qos, msg.Retain, false, msg.Payload),
 			cBool(reqID != 0), fmt.Sprint(code), cListInline(ws)))
 		dist[fmt.Sprintf("publish_q%d", min(int(qos), 3))]++
 		if code != 0 {
@@ -303,8 +284,8 @@ func runC05(cfg *runCfg) error {
 			q := byte(r.Intn(3))
 			subs = append(subs, mqtt.Subscription{Topic: string(t), QoS: mqtt.QoS(q)})
 			topics = append(topics, string(t))
-			cs = append(cs, cTuple(cBytes(t), fmt.Sprint(q)))
-			ts = append(ts, cBytes(t))
+			cs = append(cs, cTuple(c05Z(t), fmt.Sprint(q)))
+			ts = append(ts, c05Z(t))
 		}
 		ctx, cancel := ctxTimeout(5 * time.Second)
 		_, e1 := s.cli.Subscribe(ctx, append([]mqtt.Subscription{}, subs...)...)
@@ -324,8 +305,8 @@ func runC05(cfg *runCfg) error {
 		if len(w) != 2 {
 			return fmt.Errorf("expected 2 writes, got %d", len(w))
 		}
-		subCases = append(subCases, cTuple(cListInline(cs), cBytes(w[0])))
-		unsubCases = append(unsubCases, cTuple(cListInline(ts), cBytes(w[1])))
+		subCases = append(subCases, cTuple(cListInline(cs), c05Z(w[0])))
+		unsubCases = append(unsubCases, cTuple(cListInline(ts), c05Z(w[1])))
 		dist["subscribe"]++
 		dist["unsubscribe"]++
 		if n > 1 {
@@ -477,9 +458,9 @@ func runC05(cfg *runCfg) error {
 		}
 		obs := "None"
 		if got != nil {
-			obs = "(Some " + cLibMsg(got) + ")"
+			obs = "(Some " + c05ZMsg(got) + ")"
 		}
-		inCases = append(inCases, cTuple(cMsg(im.Topic, im.ID, im.QoS, im.Retain, im.Dup, im.Payload), cBool(valid), obs))
+		inCases = append(inCases, cTuple(c05Msg(im.Topic, im.ID, im.QoS, im.Retain, im.Dup, im.Payload), cBool(valid), obs))
 		dist["inbound_publish"]++
 		m.Families["inpub"] = append(m.Families["inpub"], map[string]interface{}{"sent": fmt.Sprintf("%+v", im), "valid_utf8_no_nul": valid, "delivered": fmt.Sprintf("%+v", got)})
 	}
@@ -519,6 +500,16 @@ func runC05(cfg *runCfg) error {
 	cf.def("inbig_cases", "list (list N * N * N)", cList(inbigCases))
 	cf.result("V_inbig", "c05_inbig_violations inbig_cases")
 
+	// ---------- inbound sequences and retry handles (c05flows.go) ----------
+	nInseq, err := c05Inseq(cfg, r, cf, m, dist, scale)
+	if err != nil {
+		return err
+	}
+	nRetry, err := c05Retry(cfg, r, cf, m, dist, scale)
+	if err != nil {
+		return err
+	}
+
 	total := 0
 	keys := []string{}
 	for k, v := range dist {
@@ -526,10 +517,10 @@ func runC05(cfg *runCfg) error {
 		keys = append(keys, k)
 	}
 	sort.Strings(keys)
-	total = len(connCases) + len(pubCases) + len(subCases) + len(unsubCases) + len(smallCases) + len(lenCases) + len(bigCases) + len(inCases) + len(inbigCases)
+	total = len(connCases) + len(pubCases) + len(subCases) + len(unsubCases) + len(smallCases) + len(lenCases) + len(bigCases) + len(inCases) + len(inbigCases) + nInseq + nRetry
 	m.Evaluations = total
-	m.DistinctNontrivial = len(connCases) + len(pubCases) + len(subCases) + len(inCases) - dist["publish_rejected"]
-	m.Rule = "public API only: Connect with random option combinations (will, credentials, levels, keep-alive), Publish (all QoS/retain/ids, MaxPayloadLen boundaries, invalid QoS), Subscribe/Unsubscribe lists, Ping/Disconnect and the reader's acknowledgements on an in-memory transport; bytes written are compared with the model and decoded by the independent decoder inside Coq; remainingLength at every boundary +-3 and random values; payload lengths across the 1/2/3/4-byte boundaries as header prefix + total length; inbound PUBLISH delivered through the real serve loop. distinct_nontrivial = connect + accepted publish + subscribe + inbound cases (randomly generated, duplicates not removed: counted conservatively as generated minus rejected)"
+	m.DistinctNontrivial = len(connCases) + len(pubCases) + len(subCases) + len(inCases) - dist["publish_rejected"] + nInseq + nRetry
+	m.Rule = "public API only: Connect with random option combinations (will, credentials, levels, keep-alive), Publish (all QoS/retain/ids, MaxPayloadLen boundaries, invalid QoS), Subscribe/Unsubscribe lists, Ping/Disconnect and the reader's acknowledgements on an in-memory transport; bytes written are compared with the model and decoded by the independent decoder inside Coq; remainingLength at every boundary +-3 and random values; payload lengths across the 1/2/3/4-byte boundaries as header prefix + total length; inbound PUBLISH delivered through the real serve loop; inbound sequences (60 systematic: a QoS 2 PUBLISH, 1-4 packets of one kind with shorter/equal/longer bodies, its PUBREL; random: PUBLISH of all QoS, stray acknowledgements, SUBACKs, PINGRESPs, every QoS 2 message released after 1-4 other packets) fed as one byte stream, the handler's snapshots compared with the independent decoder's reading of the stream; retry handles: QoS 1/2 Publish, Subscribe, Unsubscribe interrupted by a write error / the peer closing / context cancellation at every point of the exchange, the returned ErrorWithRetry retried on a fresh connected BaseClient (and interrupted once more: retry of a retry), every packet handed to every transport decoded inside Coq. distinct_nontrivial = connect + accepted publish + subscribe + inbound cases + inbound sequences + retry scripts (randomly generated, duplicates not removed: counted conservatively as generated minus rejected)"
 	_ = context.Background
 	if err := cf.write(cfg.outDir); err != nil {
 		return err
